@@ -12,8 +12,8 @@ size_t strspn(const char *p, const char *set)
 {
     size_t k = nondet_size();
     __CPROVER_assume(k <= 0x7fffffff);
-    if (k > 0) __CPROVER_assume(V_IS_HEX(BYTE_AT(p)));
-    if (k <= 4) __CPROVER_assume(!V_IS_HEX(BYTE_AT(p + k)));
+    if (k > 0) { int b0 = BYTE_AT(p); __CPROVER_assume(V_IS_HEX(b0)); }
+    if (k <= 4) { int bk = BYTE_AT(p + k); __CPROVER_assume(!V_IS_HEX(bk)); }
     return k;
 }
 int is_ipv4(const char *start, const char *end)
